@@ -504,3 +504,135 @@ Proof.
   destruct (consumed_at_off Hat (proj1 (run_reps_consumed g fuel) _ _ _ _ _ _ _ _ E)) as [_ Hl]. exact Hl.
 Qed.
 End WF.
+
+(** ** symbolic execution: what an expression answers, whatever the fuel *)
+Section Runs.
+Variable R : Type.
+Variable g : grammar R.
+Local Open Scope N_scope.
+
+(** [runs sk a e inp i r]: whatever the fuel, running [e] either runs out of fuel or answers [r].
+    A small logic for executing the interpreter symbolically, compositional in the expression. *)
+Definition runs (sk : bool) (a : atomicity) (e : pexp R) (inp : str) (i : N) (r : res R) : Prop :=
+  forall fuel, run g fuel sk a e inp i = OutOfFuel \/ run g fuel sk a e inp i = r.
+Definition repss (sk : bool) (a : atomicity) (x : pexp R) (inp : str) (i : N) (r : res R) : Prop :=
+  forall fuel, reps g fuel sk a x inp i = OutOfFuel \/ reps g fuel sk a x inp i = r.
+
+Lemma runs_Lit sk a l inp i :
+  runs sk a (Lit l) inp i
+    (match strip_prefix l inp with Some rest => Ok (rest, i + slen l, []) | None => Fail end).
+Proof. intros [|f]; [left|right]; reflexivity. Qed.
+
+Lemma runs_Any sk a inp i :
+  runs sk a Any inp i (match inp with _ :: rest => Ok (rest, i + 1, []) | [] => Fail end).
+Proof. intros [|f]; [left|right]; reflexivity. Qed.
+
+Lemma runs_class a x P inp i : is_class g a x P -> runs false a x inp i (class_result R P inp i).
+Proof. intros H fuel. apply H. Qed.
+
+Lemma runs_Call_ok sk a r inp i inp' i' ps :
+  runs (body_sk g r) (body_atomicity g r a) (r_exp (g_rule g r)) inp i (Ok (inp', i', ps)) ->
+  runs sk a (Call r) inp i (Ok (inp', i', if rule_records g r a then [Pair r i i' ps] else ps)).
+Proof. intros H [|f]; [left; reflexivity|]. cbn [run]. destruct (H f) as [E|E]; rewrite E; [left|right]; reflexivity. Qed.
+
+Lemma runs_Call_fail sk a r inp i :
+  runs (body_sk g r) (body_atomicity g r a) (r_exp (g_rule g r)) inp i Fail ->
+  runs sk a (Call r) inp i Fail.
+Proof. intros H [|f]; [left; reflexivity|]. cbn [run]. destruct (H f) as [E|E]; rewrite E; [left|right]; reflexivity. Qed.
+
+Lemma runs_Seq_ok a x y inp i inp1 i1 p1 inp2 i2 p2 :
+  runs false a x inp i (Ok (inp1, i1, p1)) -> runs false a y inp1 i1 (Ok (inp2, i2, p2)) ->
+  runs false a (Seq x y) inp i (Ok (inp2, i2, p1 ++ p2)).
+Proof.
+  intros Hx Hy [|f]; [left; reflexivity|]. rewrite run_Seq_nosk.
+  destruct (Hx f) as [E|E]; rewrite E; [left; reflexivity|].
+  destruct (Hy f) as [E2|E2]; rewrite E2; [left|right]; reflexivity.
+Qed.
+
+Lemma runs_Seq_fail1 a x y inp i : runs false a x inp i Fail -> runs false a (Seq x y) inp i Fail.
+Proof. intros Hx [|f]; [left; reflexivity|]. rewrite run_Seq_nosk. destruct (Hx f) as [E|E]; rewrite E; [left|right]; reflexivity. Qed.
+
+Lemma runs_Seq_fail2 a x y inp i inp1 i1 p1 :
+  runs false a x inp i (Ok (inp1, i1, p1)) -> runs false a y inp1 i1 Fail -> runs false a (Seq x y) inp i Fail.
+Proof.
+  intros Hx Hy [|f]; [left; reflexivity|]. rewrite run_Seq_nosk.
+  destruct (Hx f) as [E|E]; rewrite E; [left; reflexivity|].
+  destruct (Hy f) as [E2|E2]; rewrite E2; [left|right]; reflexivity.
+Qed.
+
+Lemma runs_Alt_l sk a x y inp i r : runs sk a x inp i (Ok r) -> runs sk a (Alt x y) inp i (Ok r).
+Proof. intros Hx [|f]; [left; reflexivity|]. cbn [run]. destruct (Hx f) as [E|E]; rewrite E; [left|right]; reflexivity. Qed.
+
+Lemma runs_Alt_r sk a x y inp i r : runs sk a x inp i Fail -> runs sk a y inp i r -> runs sk a (Alt x y) inp i r.
+Proof.
+  intros Hx Hy [|f]; [left; reflexivity|]. cbn [run]. destruct (Hx f) as [E|E]; rewrite E; [left; reflexivity|]. apply Hy.
+Qed.
+
+Lemma runs_Opt_some sk a x inp i r : runs sk a x inp i (Ok r) -> runs sk a (Opt x) inp i (Ok r).
+Proof. intros Hx [|f]; [left; reflexivity|]. cbn [run]. destruct (Hx f) as [E|E]; rewrite E; [left|right]; reflexivity. Qed.
+
+Lemma runs_Opt_none sk a x inp i : runs sk a x inp i Fail -> runs sk a (Opt x) inp i (Ok (inp, i, [])).
+Proof. intros Hx [|f]; [left; reflexivity|]. cbn [run]. destruct (Hx f) as [E|E]; rewrite E; [left|right]; reflexivity. Qed.
+
+Lemma runs_Not_ok sk a x inp i : runs sk a x inp i Fail -> runs sk a (NotP x) inp i (Ok (inp, i, [])).
+Proof. intros Hx [|f]; [left; reflexivity|]. cbn [run]. destruct (Hx f) as [E|E]; rewrite E; [left|right]; reflexivity. Qed.
+
+Lemma runs_Not_fail sk a x inp i r : runs sk a x inp i (Ok r) -> runs sk a (NotP x) inp i Fail.
+Proof. intros Hx [|f]; [left; reflexivity|]. cbn [run]. destruct (Hx f) as [E|E]; rewrite E; [left|right]; reflexivity. Qed.
+
+(** repetition in a rule without implicit skipping *)
+Lemma repss_stop a x inp i : runs false a x inp i Fail -> repss false a x inp i (Ok (inp, i, [])).
+Proof. intros Hx [|f]; [left; reflexivity|]. rewrite reps_S_nosk. destruct (Hx f) as [E|E]; rewrite E; [left|right]; reflexivity. Qed.
+
+Lemma repss_step a x inp i inp1 i1 p1 inp2 i2 p2 :
+  runs false a x inp i (Ok (inp1, i1, p1)) -> repss false a x inp1 i1 (Ok (inp2, i2, p2)) ->
+  repss false a x inp i (Ok (inp2, i2, p1 ++ p2)).
+Proof.
+  intros Hx Hr [|f]; [left; reflexivity|]. rewrite reps_S_nosk.
+  destruct (Hx f) as [E|E]; rewrite E; [left; reflexivity|].
+  destruct (Hr f) as [E2|E2]; rewrite E2; [left|right]; reflexivity.
+Qed.
+
+Lemma runs_Star_step a x inp i inp1 i1 p1 inp2 i2 p2 :
+  runs false a x inp i (Ok (inp1, i1, p1)) -> repss false a x inp1 i1 (Ok (inp2, i2, p2)) ->
+  runs false a (Star x) inp i (Ok (inp2, i2, p1 ++ p2)).
+Proof.
+  intros Hx Hr [|f]; [left; reflexivity|]. rewrite run_Star_S.
+  destruct (Hx f) as [E|E]; rewrite E; [left; reflexivity|].
+  destruct (Hr f) as [E2|E2]; rewrite E2; [left|right]; reflexivity.
+Qed.
+
+Lemma runs_Star_stop sk a x inp i : runs sk a x inp i Fail -> runs sk a (Star x) inp i (Ok (inp, i, [])).
+Proof. intros Hx [|f]; [left; reflexivity|]. rewrite run_Star_S. destruct (Hx f) as [E|E]; rewrite E; [left|right]; reflexivity. Qed.
+
+Lemma runs_Plus a x inp i r : runs false a (Seq x (Star x)) inp i r -> runs false a (Plus x) inp i r.
+Proof. intros H [|f]; [left; reflexivity|]. cbn [run]. apply H. Qed.
+
+
+Lemma runs_Call_rec sk a r inp i inp' i' ps :
+  rule_records g r a = true ->
+  runs (body_sk g r) (body_atomicity g r a) (r_exp (g_rule g r)) inp i (Ok (inp', i', ps)) ->
+  runs sk a (Call r) inp i (Ok (inp', i', [Pair r i i' ps])).
+Proof. intros Hr H. pose proof (@runs_Call_ok sk a r inp i inp' i' ps H) as H'. rewrite Hr in H'. exact H'. Qed.
+
+Lemma runs_Call_silent sk a r inp i inp' i' ps :
+  rule_records g r a = false ->
+  runs (body_sk g r) (body_atomicity g r a) (r_exp (g_rule g r)) inp i (Ok (inp', i', ps)) ->
+  runs sk a (Call r) inp i (Ok (inp', i', ps)).
+Proof. intros Hr H. pose proof (@runs_Call_ok sk a r inp i inp' i' ps H) as H'. rewrite Hr in H'. exact H'. Qed.
+
+Lemma runs_Lit_ok sk a l rest i : runs sk a (Lit l) (l ++ rest) i (Ok (rest, i + slen l, [])).
+Proof.
+  pose proof (runs_Lit sk a l (l ++ rest) i) as H.
+  assert (E : strip_prefix l (l ++ rest) = Some rest).
+  { clear H. induction l as [|c l IH]; cbn; [reflexivity|]. rewrite N.eqb_refl. exact IH. }
+  rewrite E in H. exact H.
+Qed.
+
+Lemma runs_Lit_head_fail sk a c0 l c t i : N.eqb c0 c = false -> runs sk a (Lit (c0 :: l)) (c :: t) i Fail.
+Proof. intros Hc. pose proof (runs_Lit sk a (c0 :: l) (c :: t) i) as H. cbn [strip_prefix] in H. rewrite Hc in H. exact H. Qed.
+
+Lemma runs_Lit_nil_fail sk a c0 l i : runs sk a (Lit (c0 :: l)) [] i Fail.
+Proof. exact (runs_Lit sk a (c0 :: l) [] i). Qed.
+
+End Runs.
